@@ -40,11 +40,16 @@ RULE = (
     "at delivery -, a never-used ticket, the next not yet issued ticket; single, duplicated at the same instant or 1 s "
     "later; sent at the instant with zero latency or sent earlier so that it ARRIVES at the instant), and operations on "
     "the public request.timer (cancel, reschedule, reschedule then cancel, reschedule then reschedule, the second call "
-    "after 0-3 loop iterations or 1 virtual second). Every step is anchored at an absolute virtual offset, at "
+    "after 0-3 loop iterations or 1 virtual second), and reactions of the application to SearchRequestSentEvent (step "
+    "kind 'react', listeners registered after the recording one): a sync listener that removes the new request or "
+    "cancels / reschedules / reschedules+cancels its timer; an async listener that suspends 1-3 loop iterations or "
+    "5 ms and then does the same; an async listener that is suspended while another callback does it (0-1 iterations "
+    "or 2 ms after the listener started), i.e. while the emission of the event - and search() - has not returned. "
+    "Every other step is anchored at an absolute virtual offset, at "
     "creation+dt or at deadline+dt of a scripted request; dt=0 anchors run k=0..4 loop iterations after the "
-    "loop.call_at(deadline) handle (k=0 runs before the library's timer callback, k>=2 after it). The first 243 cases "
-    "enumerate every single follow-up operation x search type x position around the deadline (shortest witnesses "
-    "first); the rest are drawn from random.Random(f'{seed}:C18:{idx}') with non-decreasing length 2..10. Reference "
+    "loop.call_at(deadline) handle (k=0 runs before the library's timer callback, k>=2 after it). The first 284 cases "
+    "enumerate every single follow-up operation x search type x position around the deadline (0..242) and every "
+    "reaction to the sent event x search type incl. wishlist (243..283), shortest witnesses first; the rest are drawn from random.Random(f'{seed}:C18:{idx}') with non-decreasing length 2..10. Reference "
     "model = fold over the ordered log: live set by request identity from SearchRequestSentEvent, manual removal and "
     "validated SearchRequestRemovedEvent; per request the list of armed deadlines (start / reschedule) with how each "
     "ended (cancel / re-arm / fired). Rules: R1 result event only for a live request and result.ticket == "
@@ -86,20 +91,27 @@ ASSUMPTIONS = [
     "every firing other than the legitimate one is fired-at-superseded-deadline:rearmed-twice (which superseded arm "
     "fired cannot be told from outside: Timer.runner reads `timeout` when the task first runs). After a reported timer "
     "violation of a request its consequences (e.g. the KeyError of the legitimate timer) are counted, not reported.",
+    "The statement does not say whether a timeout counts from the announcement of the request "
+    "(SearchRequestSentEvent) or from the moment all listeners of that event have returned: when a scripted listener "
+    "takes virtual time (5 ms) every removal instant in [sent+timeout, listener-done+timeout] is accepted.",
     "asyncio's scheduling is unchanged (FIFO ready queue, CPython task stepping); CPython reference counting reports "
     "never-retrieved task exceptions at once, gc.collect() before the end of the judged window catches the rest.",
 ]
 MIN_OBS = {
     'quick': {'sequences': 950, 'requests_created': 1800, 'results_judged': 1000, 'removals_judged': 1200,
-              'same_instant_races': 800, 'timer_ops': 500, 'wishlist_rounds': 400, 'timeout0_judged': 150},
+              'same_instant_races': 800, 'timer_ops': 500, 'wishlist_rounds': 400, 'timeout0_judged': 150,
+              'sent_reactions': 250},
     'thorough': {'sequences': 39000, 'requests_created': 75000, 'results_judged': 50000, 'removals_judged': 55000,
-                 'same_instant_races': 45000, 'timer_ops': 25000, 'wishlist_rounds': 19000, 'timeout0_judged': 10000},
+                 'same_instant_races': 45000, 'timer_ops': 25000, 'wishlist_rounds': 19000, 'timeout0_judged': 10000,
+                 'sent_reactions': 16000},
 }
 SHARD_TIMEOUT = {'quick': 600, 'thorough': 5400}
 EXHAUSTIVE = {'quick': False, 'thorough': False}
 WHAT_FAILS = {
-    'removed-request:timer-still-fires': 'remove_request leaves the request timer running; at the deadline the timer '
-                                         'callback raises KeyError inside the timer task (unhandled task exception)',
+    'removed-request:timer-still-fires': 'a timer of a request the user removed is (still or again) armed - e.g. '
+                                         'remove_request does not cancel it, or it is started only after the sent '
+                                         'event was delivered and the removal happened during that delivery; at the '
+                                         'deadline the callback raises KeyError inside the timer task',
     'removed-request:event-after-removal': 'a removal event is emitted for a request the user already removed',
     'timer:cancel-after-reschedule-ineffective': 'Timer.reschedule(): the cancelled old task clears the handle of the '
                                                  'new task one iteration later; a later cancel() is a no-op and the '
@@ -219,6 +231,45 @@ def _systematic() -> list[dict]:
     out.append(_base(steps=[_search(), {'k': 'remove', 'by': 'object', 'ref': 's0', 'at': _anchor('s0', 'created', 1.0),
                                         'hops': 0},
                             {'k': 'remove', 'by': 'ticket', 'ref': 's0', 'at': _anchor('s0', 'created', 2.0), 'hops': 0}]))
+    # the application reacts to SearchRequestSentEvent (appended last: earlier case numbers are stable)
+    for typ, rxs in (('net', _reactions(True)), ('room', _reactions(False)), ('user', _reactions(False))):
+        for rx in rxs:
+            out.append(_base(steps=[_search(typ), dict(copy.deepcopy(rx), ref='s0')]))
+    for rx in _reactions(False):
+        out.append(_base(wishlist=['wish-0'], rounds=2,
+                         steps=[{'k': 'wishlist', 'at': {'abs': 1.0}}, dict(copy.deepcopy(rx), ref='w0.0')]))
+    # a suspended listener alone, and one with a scripted removal in the same instant
+    for susp in ('y3', '5ms'):
+        out.append(_base(steps=[_search(), {'k': 'react', 'ref': 's0', 'how': 'async', 'who': 'listener', 'suspend': susp,
+                                            'op': 'none'}]))
+        out.append(_base(steps=[_search(), {'k': 'react', 'ref': 's0', 'how': 'async', 'who': 'listener', 'suspend': susp,
+                                            'op': 'none'},
+                                {'k': 'remove', 'by': 'object', 'ref': 's0', 'at': _anchor('s0', 'created', 0.0), 'hops': 1}]))
+    return out
+
+
+REACT_OPS = ('remove', 'cancel', 'reschedule', 'reschedule+cancel')
+
+
+def _reactions(full: bool) -> list[dict]:
+    """What the application does when it is told about a new request (SearchRequestSentEvent): in a sync listener,
+    in an async listener after a suspension, or from another task while an async listener is suspended."""
+    def rx(how, op, **kw):
+        d = {'k': 'react', 'how': how, 'op': op}
+        if op == 'remove':
+            d['by'] = kw.pop('by', 'object')
+        if op.startswith('reschedule'):
+            d['tau2'] = 3
+        d.update(kw)
+        return d
+    out = [rx('sync', 'remove'), rx('async', 'remove', who='other', suspend='y2', after=0),
+           rx('async', 'cancel', who='listener', suspend='y1')]
+    if full:
+        out += [rx('sync', 'remove', by='ticket')] + [rx('sync', op) for op in REACT_OPS[1:]]
+        for susp in ('y1', 'y3', '5ms'):
+            out += [rx('async', op, who='listener', suspend=susp) for op in REACT_OPS[:3]]
+        for susp, after in (('y2', 0), ('y3', 1), ('5ms', 0), ('5ms', '2ms')):
+            out += [rx('async', op, who='other', suspend=susp, after=after) for op in REACT_OPS[:3]]
     return out
 
 
@@ -272,6 +323,24 @@ def gen_random(seed: int, idx: int, nsteps: int) -> dict:
         slabels.append(f's{i}')
         labels.append(f's{i}')
         budget -= 1
+    if budget > 0 and labels and rng.random() < 0.3:
+        budget -= 1
+        how = rng.choice(['sync', 'async', 'async'])
+        rx = {'k': 'react', 'ref': rng.choice(slabels) if slabels and rng.random() < 0.8 else rng.choice(labels),
+              'how': how, 'op': rng.choice(REACT_OPS + ('remove', 'none'))}
+        if how == 'sync' and rx['op'] == 'none':
+            rx['op'] = 'remove'
+        if how == 'async':
+            rx['who'] = rng.choice(['listener', 'other'])
+            if rx['who'] == 'other':
+                rx['suspend'], rx['after'] = rng.choice([('y2', 0), ('y3', 0), ('y3', 1), ('5ms', 0), ('5ms', 1), ('5ms', '2ms')])
+            else:
+                rx['suspend'] = rng.choice(['y1', 'y2', 'y3', '5ms'])
+        if rx['op'] == 'remove':
+            rx['by'] = rng.choice(['object', 'ticket'])
+        if rx['op'].startswith('reschedule'):
+            rx['tau2'] = rng.choice([1, 2, 3, 6, None])
+        steps.append(rx)
     while budget > 0 and labels:
         budget -= 1
         target = rng.choice(slabels) if slabels and rng.random() < 0.6 else rng.choice(labels)
@@ -362,6 +431,10 @@ class _Run:
         self.steps_done = 0
         self.steps_skipped = 0
         self.final: dict = {}
+        self.reactions: dict[str, dict] = {}
+        for i, stp in enumerate(script['steps']):
+            if stp['k'] == 'react' and stp['ref'] not in self.reactions:
+                self.reactions[stp['ref']] = dict(stp, i=i)
         self.w = None
         self.client = None
         self.loop = None
@@ -428,6 +501,78 @@ class _Run:
             if self.wish_sent >= self.script['rounds'] * max(1, len(self.script['wishlist'])):
                 for entry in self.client.settings.searches.wishlist:
                     entry.enabled = False
+
+    # -- the application's own listeners of SearchRequestSentEvent (registered after on_sent) ------
+    def react_op(self, rx: dict, R: dict):
+        op = rx['op']
+        if op == 'remove':
+            self.do_remove(R, rx.get('by', 'object'))
+        elif op == 'cancel':
+            self.timer_cancel(R)
+        elif op == 'reschedule':
+            self.timer_reschedule(R, rx.get('tau2'))
+        elif op == 'reschedule+cancel':
+            if self.timer_reschedule(R, rx.get('tau2')):
+                self.timer_cancel(R)
+
+    def _reaction_for(self, ev, how: str):
+        rid = self.by_id.get(id(ev.query))
+        if rid is None:
+            return None, None
+        R = self.reqs[rid]
+        rx = self.reactions.get(R['label'])
+        if rx is None or rx['how'] != how or rx.get('used'):
+            return None, None
+        rx['used'] = True
+        return rx, R
+
+    def app_on_sent_sync(self, ev):
+        try:
+            rx, R = self._reaction_for(ev, 'sync')
+            if rx is None:
+                return
+            self.add('step', i=rx['i'], kind='react')
+            self.react_op(rx, R)
+            self.add('react-done', rid=R['rid'])
+            self.steps_done += 1
+        except Exception:     # the bus would swallow (log) it: a harness bug must surface as inconclusive
+            self.w.harness_error('sync reaction', traceback.format_exc())
+
+    async def app_on_sent_async(self, ev):
+        try:
+            await self._app_on_sent_async(ev)
+        except Exception:
+            self.w.harness_error('async reaction', traceback.format_exc())
+
+    async def _app_on_sent_async(self, ev):
+        rx, R = self._reaction_for(ev, 'async')
+        if rx is None:
+            return
+        loop = self.loop
+        self.add('step', i=rx['i'], kind='react')
+        if rx.get('who') == 'other':
+            # somebody else acts while this listener (and with it the emission of the event) is suspended
+            fn = self.guard(lambda: self.react_op(rx, R), f"step {rx['i']} other task")
+            after = rx.get('after', 0)
+            if after == '2ms':
+                loop.call_later(0.002, fn)
+            else:
+                def hop(k):
+                    if k <= 0:
+                        fn()
+                    else:
+                        loop.call_soon(hop, k - 1)
+                loop.call_soon(hop, int(after))
+        susp = rx.get('suspend', 'y1')
+        if susp == '5ms':
+            await asyncio.sleep(0.005)
+        else:
+            for _ in range(int(susp[1:])):
+                await asyncio.sleep(0)
+        if rx.get('who') != 'other':
+            self.react_op(rx, R)
+        self.add('react-done', rid=R['rid'])
+        self.steps_done += 1
 
     def on_removed(self, ev):
         req = ev.query
@@ -661,6 +806,8 @@ class _Run:
         for name in ('bob', 'carol'):
             await w.add_peer(name)
         h.listen(E.SearchRequestSentEvent, self.on_sent)
+        h.listen(E.SearchRequestSentEvent, self.app_on_sent_sync)      # same priority: run in registration order
+        h.listen(E.SearchRequestSentEvent, self.app_on_sent_async)
         h.listen(E.SearchRequestRemovedEvent, self.on_removed)
         h.listen(E.SearchResultEvent, self.on_result)
         h.listen(E.MessageReceivedEvent, self.on_message)
@@ -674,6 +821,8 @@ class _Run:
             if st['k'] == 'search':
                 label = f's{ns}'
                 ns += 1
+            if st['k'] == 'react':
+                continue          # runs inside the application's listener
             tasks.append(w.spawn('me', self.run_step(i, st, label), name=f'vf-step-{i}'))
         await self.sleep_until(self.T0 + HORIZON)
         if sc.get('tail'):
@@ -724,7 +873,7 @@ def judge(run: _Run, out, res: dict) -> dict:
            'wishlist_rounds': 0, 'timeout0_judged': 0, 'replies_delivered': 0, 'replies_undelivered': 0,
            'registry_checks': 0, 'result_events': 0, 'manual_removals': 0, 'removal_keyerror_not_judged': 0,
            'timer_ops_skipped': 0, 'steps_done': run.steps_done, 'steps_skipped': run.steps_skipped,
-           'timer_rules_judged': 0, 'errors_attributed': 0, 'followup_not_reported': 0}
+           'timer_rules_judged': 0, 'errors_attributed': 0, 'followup_not_reported': 0, 'sent_reactions': 0}
     st = {R['rid']: {'armed': [], 'removed_by': None, 't_dead': None, 'removals': [], 'results': 0, 'touched': False,
                      'tainted': False, 'ops': []} for R in reqs}
     live: set[int] = set()
@@ -742,6 +891,14 @@ def judge(run: _Run, out, res: dict) -> dict:
             if a['end'] is None:
                 return a
         return None
+
+    def hi(a):
+        # the statement does not say whether the timeout counts from the moment the request is announced or
+        # from the moment the announcement has been delivered (a listener may take time): both are accepted
+        return a.get('hi', a['d'])
+
+    def hit(a, t, tol=TOL):
+        return a['d'] - tol <= t <= hi(a) + tol
 
     REARMED = 'timer:fired-at-superseded-deadline:rearmed-twice'
 
@@ -795,8 +952,8 @@ def judge(run: _Run, out, res: dict) -> dict:
                 V.append(('removal-for-timeout-0', {'t': T(e['t']), 'request': brief(R)}))
             else:
                 cur = current(rid)
-                match = [a for a in S['armed'] if abs(a['d'] - e['t']) <= TOL]
-                if cur is not None and abs(cur['d'] - e['t']) <= TOL:
+                match = [a for a in S['armed'] if hit(a, e['t'])]
+                if cur is not None and hit(cur, e['t']):
                     fired = cur
                     if S['touched']:
                         obs['timer_rules_judged'] += 1
@@ -862,6 +1019,11 @@ def judge(run: _Run, out, res: dict) -> dict:
             st[rid]['armed'].append({'d': e['t'] + e['tau'], 'by': 'reschedule', 'end': None, 'n': e['n']})
         elif k == 'timer-skip':
             obs['timer_ops_skipped'] += 1
+        elif k == 'react-done':
+            obs['sent_reactions'] += 1
+            for a in st[rid]['armed']:
+                if a['by'] == 'start' and e['t'] + reqs[rid]['tau'] > a['d']:
+                    a['hi'] = e['t'] + reqs[rid]['tau']
         elif k == 'delivered':
             obs['replies_delivered'] += 1
             lv = [o for o in sorted(live) if reqs[o]['ticket'] == e['ticket']]
@@ -957,7 +1119,7 @@ def judge(run: _Run, out, res: dict) -> dict:
                 if R['ticket'] != ticket or S['removed_by'] is None or S['t_dead'] > t_abs + 2 * TOL:
                     continue
                 for a in S['armed']:
-                    if abs(a['d'] - t_abs) <= 2 * TOL and a['end'] != 'fired':
+                    if hit(a, t_abs, 2 * TOL) and a['end'] != 'fired':
                         best = (R, S, a)
                 if best is None and S['removed_by'] == 'manual':
                     # reported late (GC): any armed, never cancelled deadline that has passed
@@ -1036,7 +1198,7 @@ def judge(run: _Run, out, res: dict) -> dict:
             if rid in live and not fin.get('registered'):
                 V.append(('registry:live-request-not-registered', {'at': 'final', 'request': brief(R)}))
         else:
-            passed = cur is not None and cur['d'] + TOL < t_end
+            passed = cur is not None and hi(cur) + TOL < t_end
             if passed or S['removed_by'] == 'timer':
                 obs['removals_judged'] += 1
             if S['touched']:
@@ -1075,9 +1237,14 @@ def judge(run: _Run, out, res: dict) -> dict:
             obs['same_instant_races'] += 1
             raced_steps.add(e['i'])
             race_orders.append(f"{stp['k']}:{rel}")
-        at = stp['at']
-        anchor = 'abs' if 'abs' in at else f"{at['edge']}{'+0' if at['dt'] == 0 else ('+' if at['dt'] > 0 else '-')}"
+        at = stp.get('at')
+        if at is None:
+            anchor = 'sent-event'
+        else:
+            anchor = 'abs' if 'abs' in at else f"{at['edge']}{'+0' if at['dt'] == 0 else ('+' if at['dt'] > 0 else '-')}"
         sub = stp.get('type') or stp.get('op') or stp.get('by') or ''
+        if stp['k'] == 'react':
+            sub = f"{stp['how']}/{stp.get('who', '')}/{stp.get('suspend', '')}/{stp.get('after', '')}/{stp['op']}"
         if stp['k'] == 'reply':
             sub = f"{stp['ticket']}/{stp.get('dup') or 1}/{stp.get('mode')}"
         if stp['k'] == 'timer' and stp.get('gap'):
